@@ -101,6 +101,9 @@ Clauses(e) ==
           <<"C20.expand.sumchildren", \A i \in 1..Len(e.sums) : e.sums[i] = NormME(e.distinct, 0)>> >>
     [] e.ev = "len" ->
        << <<"C20.len", e.num = NormME(e.len, 0)>> >>
+    [] e.ev = "sizing" ->
+       << <<"C20.sizing.rule", e.rule = NormME(e.want, 0)>>,
+          <<"C20.sizing.output", e.got = e.want /\ e.fillers = 0>> >>
     [] e.ev = "area" ->
        << <<"C20.area.decreasing", e.r < 0 \/ e.less>>,
           <<"C20.area.world", e.r >= 0 \/ e.notless>>,
